@@ -4,6 +4,7 @@ use crate::util::Rec;
 use crate::Env;
 
 pub mod c01;
+pub mod hostile;
 pub mod c02;
 pub mod c03;
 pub mod c12;
